@@ -17,7 +17,7 @@ ASSUMPTIONS = ["residue ids are kept fixed under relabelling (as the property st
 BUDGET = {"quick": 540, "thorough": 3000}
 
 BASE_LINKSETS = [["bb"], ["bb", "ang3", "a_c"], ["gt", "pat"], ["lab", "edge_only"], ["circ", "bb"], ["star"], ["rm", "bb"],
-                 ["ver2", "lt_sa"], ["bb", "nonedge"], ["dih4", "bb"]]
+                 ["ver2", "lt_sa"], ["bb", "nonedge"], ["dih4", "bb"], ["ord3:>,,>>", "bb"], ["ord3:<,>,", "gt"], ["ord3:*,,**"]]
 
 
 def cases(tier):
@@ -121,8 +121,8 @@ def apply_transform(rg, transform):
 # ---------------------------------------------------------------- definition order / file split
 def conflicts(l1, l2):
     """two links define the same interaction if they share (section, link atom keys, version)"""
-    k1 = {(s, a, m.get("version", 1)) for s, lst in F.LINKS[l1].get("inter", {}).items() for a, p, m in lst}
-    k2 = {(s, a, m.get("version", 1)) for s, lst in F.LINKS[l2].get("inter", {}).items() for a, p, m in lst}
+    k1 = {(s, a, m.get("version", 1)) for s, lst in F.get_link(l1).get("inter", {}).items() for a, p, m in lst}
+    k2 = {(s, a, m.get("version", 1)) for s, lst in F.get_link(l2).get("inter", {}).items() for a, p, m in lst}
     return bool(k1 & k2)
 
 
@@ -165,7 +165,7 @@ def check_deforder(variant, case, stats):
         base = run_graph(H.parse_ff([("ff", base_ff_text)]), H.build_resgraph(rg))
         variants_texts = []
         for kind, bnames, lnames in orders:
-            sp = dict(blocks={k: spec["blocks"][k] for k in bnames}, links=[F.LINKS[i] for i in lnames], mods={})
+            sp = dict(blocks={k: spec["blocks"][k] for k in bnames}, links=[F.get_link(i) for i in lnames], mods={})
             variants_texts.append((f"{kind}:{bnames if kind == 'blocks' else lnames}", [("ff", F.render_ff(sp))]))
         btxt = "\n".join(F.render_block_ff(k, b) for k, b in spec["blocks"].items())
         ltxt = "\n".join(F.render_link_ff(l) for l in spec["links"])
